@@ -1,5 +1,5 @@
 """C13 — builtin call and method optimisations preserve semantics (core of the IFACE family)."""
-from ..rules import handlers, typed, iface, trn
+from ..rules import handlers, typed, iface, trn, sC13
 
 ID = 'C13'
 TECHNIQUE = 'resolved interface analysis: handler-name resolution against builtin tables, typed helper call vs C prototype (utility catalogue + CPython headers), finite length-domain dataflow for argument lists, role table for injected integer parameters'
@@ -14,4 +14,5 @@ NOT_DECIDED = 'that each C helper agrees with the builtin it replaces on every a
 
 def run(ctx):
     return [handlers.rule_V1h(ctx), typed.rule_I3(ctx), typed.rule_I4(ctx), iface.rule_I5(ctx), iface.rule_I6(ctx),
-            handlers.rule_arg_guards(ctx), trn.rule_TRN2(ctx), trn.rule_TRN2b(ctx)]
+            handlers.rule_arg_guards(ctx), trn.rule_TRN2(ctx), trn.rule_TRN2b(ctx),
+            sC13.rule_uscore(ctx), sC13.rule_nonearg(ctx)]
